@@ -521,11 +521,13 @@ Definition c19_table_exodus : c19_reader_table :=
 
 (* SCRIP: grid_corner_lon 240 grid_corner_lat 241 grid_center_lon 242 grid_center_lat 243 grid_area 244 *)
 Definition c19_table_scrip : c19_reader_table :=
-  [c19_fr 1 240; c19_fr 4 240; c19_al 3 242; c19_al 6 243; c19_fr 10 240].
+  [c19_fr 1 240; c19_fr 4 240; c19_al 3 242; c19_al 6 243; c19_fr 10 240;
+   c19_fr 23 244].                                   (* face_areas = grid_area.values.copy() *)
 
-(* ESMF: nodeCoords 250 centerCoords 251 elementConn 252 numElementConn 253 (isel(...).values are views) *)
+(* ESMF: nodeCoords 250 centerCoords 251 elementConn 252 numElementConn 253 elementArea 254
+   (isel(...).values are views; face_areas = elementArea.values.copy() when the source has it) *)
 Definition c19_table_esmf : c19_reader_table :=
-  [c19_al 1 250; c19_al 4 250; c19_al 3 251; c19_al 6 251; c19_fr 24 253; c19_fr 10 252].
+  [c19_al 1 250; c19_al 4 250; c19_al 3 251; c19_al 6 251; c19_fr 23 254; c19_fr 24 253; c19_fr 10 252].
 
 (* GEOS-CS: corner_lons 260 corner_lats 261 lons 262 lats 263 (ravel of a contiguous array is a view) *)
 Definition c19_table_geos : c19_reader_table :=
